@@ -210,6 +210,10 @@ func (c Conc) Scalar(v Value) (GoScalar, error) {
 		}
 	case "int":
 		if c.Sym {
+			if sym >= 100 { // symbols from 100 up: unsigned integers beyond int64 (MaxUint64 downwards)
+				g.IsUint, g.U = true, math.MaxUint64-uint64(sym-100)
+				break
+			}
 			g.I = intTable[p][pick(sym, 5)]
 			break
 		}
